@@ -95,7 +95,8 @@ def cfg():
     return 3, ["I", "Cu", "Cl", "Ce", "Du", "Rc"]      # both tiers
 
 
-PLACES = ("guard", "invariant", "invariant-urgent", "invariant-committed", "invariant-second-template")
+PLACES = ("guard", "invariant", "invariant-urgent", "invariant-committed", "invariant-second-template",
+          "guard-into-branchpoint", "guard-out-of-branchpoint", "guard-with-select-and-sync")
 
 
 def model(place, text):
@@ -103,6 +104,16 @@ def model(place, text):
         return xmlgen.simple_model(decl=DECL, guard=text)
     if place == "invariant":
         return xmlgen.simple_model(decl=DECL, inv=text)
+    if place in ("guard-into-branchpoint", "guard-out-of-branchpoint"):
+        # edges through a branchpoint have one end point that is not a location
+        into = place == "guard-into-branchpoint"
+        t = xmlgen.template("T", locations=[xmlgen.location("id0", "L0"), xmlgen.location("id1", "L1")], branchpoints=["id2"], init="id0",
+                            transitions=[xmlgen.transition("id0", "id2", guard=text if into else None),
+                                         xmlgen.transition("id2", "id1", guard=None if into else text, prob="1"),
+                                         xmlgen.transition("id2", "id0", prob="2")])
+        return xmlgen.nta(DECL, [t], "P = T(); system P;")
+    if place == "guard-with-select-and-sync":
+        return xmlgen.simple_model(decl=DECL + " broadcast chan zc[2];", select="zs : int[0,1]", sync="zc[zs]!", guard=text, assign="i = zs")
     if place == "invariant-second-template":
         t2 = xmlgen.template("U", locations=[xmlgen.location("id7", "M0"), xmlgen.location("id8", "M1", inv=text)], init="id7",
                              transitions=[xmlgen.transition("id7", "id8")])
